@@ -83,6 +83,17 @@ def hostile_scenarios(r):
     for mode in ("recursive", "forwarding"):
         out.append(rc.scenario([hints], [], mode, [{"name": ring[0], "type": "A"}, {"name": ring[2], "type": "TXT"}],
                                table=table, default={"rcode": 2}))
+    # replies far larger than the cache (and than a datagram: truncated over UDP, complete over TCP), twice
+    bigq = {"name": ["big", "example"], "type": "A"}
+    for (nrec, size) in ((40, 4), (17, 8), (200, 64)):
+        big = [{"name": bigq["name"], "type": "A", "data": "10.%d.%d.%d" % (60 + i // 40000, (i // 200) % 200, i % 200 + 1),
+                "target": [], "ttl": 60} for i in range(nrec)]
+        table = [{"addr": addr, "qname": bigq["name"], "qtype": "A",
+                  "reply": {"rcode": 0, "aa": True, "authority": [], "additional": [], "answers": big}}
+                 for addr in ("10.0.0.1", "10.9.9.9")]
+        for mode in ("recursive", "forwarding"):
+            out.append(rc.scenario([hints], [], mode, [dict(bigq), dict(bigq), {"name": ["other", "example"], "type": "A"}],
+                                   table=table, default={"rcode": 2}, cache_size=size))
     # a chain of 40 aliases, one per reply
     table = []
     chain = [["c%d" % i, "example"] for i in range(41)]
@@ -124,7 +135,9 @@ def socket_level(v, wd):
                 srv.stop()
         finally:
             up.stop()
-    ths = [threading.Thread(target=one, args=(b,)) for b in ("silent", "wrong_id_stream")]
+    cuts = ["tcp_full", "tcp_prefix:0", "tcp_prefix:1", "tcp_cut:0", "tcp_cut:1", "tcp_cut:2", "tcp_cut:3", "tcp_cut:11",
+            "tcp_cut:12", "tcp_cut:20"]
+    ths = [threading.Thread(target=one, args=(b,)) for b in ["silent", "wrong_id_stream"] + cuts]
     for t in ths:
         t.start()
     for t in ths:
@@ -135,6 +148,14 @@ def socket_level(v, wd):
         if not present or dt > 12.0 or not alive:
             v.violation("socket level: a forwarded query was not answered within 5 s per transport attempt",
                         {"upstream_behaviour": k, "seconds": round(dt, 2), "reply_present": present, "server_alive": alive})
+    # a TCP reply that is cut short is an error of that exchange, nothing more: the client gets its SERVFAIL;
+    # the complete reply is passed on
+    for k in cuts:
+        if k in results and results[k][1]:
+            want = 0 if k == "tcp_full" else 2
+            if results[k][2] != want:
+                v.violation("socket level: wrong RCODE after an upstream TCP reply that was %s" % ("complete" if want == 0 else "cut short"),
+                            {"upstream_behaviour": k, "rcode": results[k][2], "expected": want})
 
 
 def run(tier):
@@ -203,8 +224,8 @@ def run(tier):
     # the resolver as a state machine: termination (liveness under weak fairness), bounded question stack, nothing
     # invented - in consistent and hostile universes, with failed transport attempts and cache loss anywhere;
     # and the recorded (faulted) resolutions as behaviours of that state machine
-    rec.model_check(v, PID, wd, r_, tier)
     rec.conformance(v, wd, lines + lines2 + lines3, chunk=400)
+    rec.explore(v, PID, wd, r_, tier)
     v.distinct = v.evaluations
     if longest < 59000 or not any(k.endswith("Timeout") for k in outcomes):
         raise vlib.ToolError("vacuous run: no resolution was slowed down")
